@@ -23,6 +23,11 @@ var solvers = []solverSpec{
 	{"cvc5", func(t int, f string) []string {
 		return []string{"cvc5", fmt.Sprintf("--tlimit=%d", t*1000), "--enum-inst", "--produce-models", f}
 	}},
+	// cvc5 translating bit-vectors to integers: decides linear index arithmetic
+	// with constant strides that bit-blasting cannot
+	{"cvc5-int", func(t int, f string) []string {
+		return []string{"cvc5", fmt.Sprintf("--tlimit=%d", t*1000), "--solve-bv-as-int=sum", "--enum-inst", "--produce-models", f}
+	}},
 }
 
 type solveResult struct {
@@ -72,7 +77,7 @@ func decide(dir string, id int, query string, timeoutS int, confirm bool) (solve
 	os.WriteFile(file, []byte(query), 0644)
 	var all []solveResult
 	// z3-new gets a head start; the other two join if it has not answered
-	ch := make(chan solveResult, 3)
+	ch := make(chan solveResult, len(solvers))
 	go func() { ch <- runSolver(solvers[0], file, timeoutS) }()
 	started := 1
 	var best solveResult
@@ -106,14 +111,14 @@ func decide(dir string, id int, query string, timeoutS int, confirm bool) (solve
 				for _, sp := range solvers[1:] {
 					go func(sp solverSpec) { ch <- runSolver(sp, file, timeoutS) }(sp)
 				}
-				started = 3
+				started = len(solvers)
 			}
 		case <-timer:
 			if started == 1 {
 				for _, sp := range solvers[1:] {
 					go func(sp solverSpec) { ch <- runSolver(sp, file, timeoutS) }(sp)
 				}
-				started = 3
+				started = len(solvers)
 			}
 		}
 	}
